@@ -155,7 +155,14 @@ class Unit:
     # -- template parsing ---------------------------------------------------
     def generate(self, canary=False):
         gen = Generated()
-        tl = open(self.path, encoding='utf-8').read().split('\n')
+        tl = []
+        for ln in open(self.path, encoding='utf-8').read().split('\n'):
+            if ln.strip().startswith('//@include '):
+                inc = os.path.join(os.path.dirname(self.path), ln.strip()[len('//@include '):].strip())
+                tl.append('// ---- include ' + os.path.basename(inc))
+                tl += open(inc, encoding='utf-8').read().split('\n')
+            else:
+                tl.append(ln)
         i = 0
         # first pass: unit-wide tables
         for ln in tl:
